@@ -39,6 +39,14 @@ NEEDS = {
     "C08-s11": ("C08", "optional index: reader uses <= DENSE_BLOCK_THRESHOLD where the writer uses <: a block with exactly 5,120 values is written dense and read sparse", "an optional column with exactly 5,120 documents carrying a value in one 65,536-row block"),
     "C09-s11": ("C09", "serialize_vint_u32: the stop bit of the 4-byte branch is shifted by 16 instead of 24", "a stored text / bytes / JSON string value of 2 MiB or more: it comes back truncated"),
     "C07-s11": ("C07", "SegmentWriter::index_document groups (field, value) pairs with an UNSTABLE sort", "a document with more than ~20 (field, value) pairs whose fields are interleaved: values of one multi-valued text field are permuted, token positions are wrong"),
+    "C02-s12": ("C02", "advance_deletes starts from the SegmentEntry's in-memory alive bitset (computed once at finalisation) and intersects with the on-disk delete file only when there is none", "a segment that got a delete during its first transaction followed by another add to the same segment, an unbroken writer session, and at least two later commits deleting from that segment: add 1,2,3; del 1; add 4; del 2; commit; del 3; commit yields {3,4} instead of {4}"),
+    "C17-s12": ("C17", "merger k-way path for numeric sort fields: Option<u64> comparison replaced by a single u64 key (null -> 0, v -> v.saturating_add(1)): the two top values collide", "numeric / date sort field, a merge through the k-way path (overlapping ranges or a live null), MAX in one segment and MAX-1 in another"),
+    "C12-s12": ("C12", "RequiredOptionalScorer::seek_danger no longer resets score_cache", "a conjunction containing a nested boolean with a Must and a Should clause (+(+a b) +c), scoring on, the nested clause not the cheapest conjunct, at least two matches per segment with different partial scores: TopDocs score differs from explain and from the clause sum"),
+    "C15-s12": ("C15", "sstable Dictionary::file_slice_for_range counts the limit budget from the first ordinal of the block holding the lower bound", "a multi-block dictionary, a lower bound strictly inside a block, a range stream with ge/gt plus limit(n) large enough to cross blocks: fewer than n keys returned"),
+    "C16-s12": ("C16", "LogicalAst::simplify pulls a sub-clause up when its children carry the parent's occur or MustNot", "strict parser only: a Should operand that is a parenthesised group with optional terms plus a '-' term and no '+' term, with a sibling: (apple -banana) OR cherry excludes banana from the whole disjunction; lenient parser unaffected"),
+    "C19-s12": ("C19", "snippet FragmentCandidate::try_add_token clamps the fragment end and the highlight to start + max_num_chars in BYTES", "a query-term token longer in bytes than max_num_chars (raw tokenizer, or a small max_num_chars); panic when the cut falls inside a multi-byte code point, otherwise a highlight that is not a query term"),
+    "C18-s12": ("C18", "RamDirectory::open_write checks exists() under the read lock before creating under the write lock: create-new is no longer atomic", "RamDirectory and at least two threads calling Index::writer concurrently while nobody holds the lock: several writers coexist"),
+    "C20-s12": ("C20", "Footer::is_compatible only rejects versions above INDEX_FORMAT_VERSION (lower bound dropped)", "a file whose footer carries a format version below 4: opened and misread instead of IncompatibleIndex"),
     "C08-s7": ("C08", "BitUnpacker::get_ids_for_value_range truncates the upper bound to 32 bits instead of clamping it", "a bit-packed column of width <= 32 and a range whose upper bound (after min/gcd normalisation) is >= 2^32 with low 32 bits below the matching values"),
 }
 
